@@ -340,3 +340,56 @@ func (fc *FuncCtx) defReachesAvoiding(d, at int, obj types.Object, edges []Edge)
 	r := fc.G.ReachAfter(d, func(v *Vertex) bool { return isDef[v.ID] && v.ID != at }, func(e Edge) bool { return es[e] })
 	return r[at]
 }
+
+// roleOf describes an expression by role rather than by name, for keys of reviewed tables that
+// must survive renames: the root variable's kind (recv, param, local, global), whether fields
+// are selected from it, and the static type of the expression.
+func roleOf(fc *FuncCtx, e ast.Expr) string {
+	info := fc.Info()
+	e = ast.Unparen(e)
+	tstr := func() string {
+		if t := info.TypeOf(e); t != nil {
+			return types.TypeString(t, func(p *types.Package) string { return p.Name() })
+		}
+		return "?"
+	}
+	if call, ok := e.(*ast.CallExpr); ok {
+		if fn := Callee(info, call); fn != nil {
+			return "call " + fn.FullName()
+		}
+		return "call:" + tstr()
+	}
+	root, path, ok := pathOf(info, e)
+	if !ok {
+		return "expr:" + tstr()
+	}
+	kind := "local"
+	if v, isVar := root.(*types.Var); isVar {
+		if v.Pkg() != nil && v.Parent() == v.Pkg().Scope() {
+			kind = "global"
+		}
+		for f := fc; f != nil; f = f.Parent {
+			var sig *types.Signature
+			if f.Obj != nil {
+				sig, _ = f.Obj.Type().(*types.Signature)
+			} else if f.Lit != nil {
+				sig, _ = info.TypeOf(f.Lit).(*types.Signature)
+			}
+			if sig == nil {
+				continue
+			}
+			if sig.Recv() == v {
+				kind = "recv"
+			}
+			for i := 0; i < sig.Params().Len(); i++ {
+				if sig.Params().At(i) == v {
+					kind = "param"
+				}
+			}
+		}
+	}
+	if path != "" {
+		kind += ".field"
+	}
+	return kind + ":" + tstr()
+}
